@@ -181,6 +181,14 @@ def ideal_primitives(repo: Repo, R, rule: str):
             exported = list(rename)
         ports_ok = p["ports"] == rd["ports"]
         req_ok = set(rd["required"]) <= set(exported)
+        # documented mapping: the VLSIR primitive is the one the hdl21 primitive is an alias of
+        # (Vcvs -> vcvs, Vdc -> vdc, Resistor -> resistor, ...).  One frozen exception, confirmed by reading:
+        # CurrentSource has aliases I/Idc/Isrc and maps to `isource` (the only current source vlsir.primitives defines).
+        NAME_EXCEPTIONS = {"CurrentSource": "isource"}
+        name_ok = v in {a.lower() for a in p["aliases"]} or NAME_EXCEPTIONS.get(name) == v
+        R.check(name_ok, rule, f"{F_PRIMS}::{name}::vlsir-name", f"{F_PRIMS}:{p['line']}",
+                f"{name} (aliases {p['aliases']}) -> vlsir.primitives.{v}: the target is the element the primitive is an alias of: {name_ok}",
+                why="an ideal element is exported as another element with the same ports (e.g. a CCVS as a VCCS): same netlist shape, other circuit")
         R.check(ports_ok and req_ok, rule, f"{F_PRIMS}::{name}", f"{F_PRIMS}:{p['line']}",
                 f"{name} -> vlsir.primitives.{v}: ports {p['ports']} vs reader {rd['ports']} ({'same order' if ports_ok else 'DIFFER'}); exported parameter names {exported} vs reader-required {rd['required']} ({'covered' if req_ok else 'MISSING ' + str(sorted(set(rd['required']) - set(exported)))})",
                 why="the netlister connects the instance's ports positionally in the reader's order / looks its parameters up by the reader's names: a mismatch swaps terminals or drops the value")
